@@ -1473,6 +1473,35 @@ def lower_record_entries(repo):
         for i, b in enumerate(body_nodes):
             body_nodes[i] = T().visit(b)
         return True
+    # inside the builder: elements of self.fields read by field name are read by position
+    def elem_var(target, it):
+        if canon_(it) == 'self.fields' and isinstance(target, ast.Name):
+            return target.id
+        if isinstance(it, ast.Call) and isinstance(it.func, ast.Name) and it.func.id == 'enumerate' and it.args and canon_(it.args[0]) == 'self.fields' \
+                and isinstance(target, ast.Tuple) and len(target.elts) == 2 and isinstance(target.elts[1], ast.Name):
+            return target.elts[1].id
+        return None
+
+    def canon_(e):
+        return ast.unparse(e)
+    for fi in repo.functions.values():
+        if fi.cls is None or 'Builder' not in fi.cls.name:
+            continue
+        binders = [(n.target, n.iter, n.body) for n in ast.walk(fi.node) if isinstance(n, ast.For)] + \
+                  [(g.target, g.iter, None) for n in ast.walk(fi.node) if isinstance(n, (ast.ListComp, ast.GeneratorExp, ast.SetComp, ast.DictComp)) for g in n.generators]
+        vars_ = {elem_var(t, it) for t, it, _ in binders} - {None}
+        if not vars_:
+            continue
+
+        class TB(ast.NodeTransformer):
+            def visit_Attribute(self, n):
+                self.generic_visit(n)
+                if isinstance(n.value, ast.Name) and n.value.id in vars_ and n.attr in entry and isinstance(n.ctx, ast.Load):
+                    return ast.copy_location(ast.Subscript(value=n.value, slice=ast.Constant(value=entry.index(n.attr)), ctx=ast.Load()), n)
+                return n
+        TB().visit(fi.node)
+        ast.fix_missing_locations(fi.node)
+        count += 1
     for fi in repo.functions.values():
         for n in ast.walk(fi.node):
             if isinstance(n, ast.For) and isinstance(n.target, ast.Name) and is_get_fields(n.iter):
